@@ -4,7 +4,7 @@
    ang2dir, separated-directions test, sub-sampling by a given index list (numpy's RandomState is an oracle),
    standard bins (Sturges, box diameter, linspace; lat-lon variant), bin_edges / geo_scale, grid expansion. *)
 From Coq Require Import ZArith List Bool Arith Lia Sorted.
-From GS Require Import Num Loops Cellwise C09_Lists C09_Removal.
+From GS Require Import Num Loops Cellwise Estimator_gen C15_VarioSpec C09_Lists C09_Removal.
 Import ListNotations.
 
 Section Pre.
@@ -36,6 +36,14 @@ Definition pre_mask (gmask : list bool) (fmask : list (list bool)) (pos f : list
 (* ---- no_data *)
 Definition pre_no_data (nd : T) (f : list (list T)) : list (list T) :=
   if nisnan O nd then f else map (map (fun x => if isclose x nd then nan else x)) f.
+
+(* ---- points without data in any field are dropped like masked points (unless every point is missing) *)
+Definition all_nan (f : list (list T)) (j : nat) : bool := forallb (fun row => nisnan O (aget z row j)) f.
+Definition pre_drop_missing (pos f : list (list T)) : list (list T) * list (list T) :=
+  let miss := map (all_nan f) (seq 0 (shape1 f)) in
+  if andb (existsb (fun b => b) miss) (negb (forallb (fun b => b) miss)) then
+    let keep := keep_idx (map negb miss) in (take_cols O keep pos, take_cols O keep f)
+  else (pos, f).
 
 (* ---- directions *)
 Definition vnorm (v : list T) : T := nsqrt O (fold_left (fun s x => nadd O s (nmul O x x)) v z).
@@ -125,6 +133,72 @@ Lemma keep_idx_In sel p : In p (keep_idx sel) <-> p < length sel /\ nth p sel fa
 Proof. unfold keep_idx. rewrite filter_In, in_seq. split; intros [A B]; split; auto; lia. Qed.
 Lemma pre_select_length gmask fmask n : length (pre_select gmask fmask n) = n.
 Proof. unfold pre_select. now rewrite map_length, seq_length. Qed.
+
+(* dropping the points that are NaN in every field does not change the estimate (bit for bit) *)
+Theorem drop_missing_same_estimate pos f edges et dt : shape1 f = shape1 pos ->
+  unstructured_spec O (snd (pre_drop_missing O pos f)) edges (fst (pre_drop_missing O pos f)) et dt
+  = unstructured_spec O f edges pos et dt.
+Proof.
+  intros Hs. unfold pre_drop_missing. cbv zeta.
+  set (miss := map (all_nan O f) (seq 0 (shape1 f))).
+  destruct (andb (existsb (fun b => b) miss) (negb (forallb (fun b => b) miss))); [|reflexivity].
+  cbn [fst snd].
+  assert (L : length (map negb miss) = shape1 pos).
+  { unfold miss. now rewrite !map_length, seq_length. }
+  apply missing_points_removed; auto.
+  - apply keep_idx_sorted.
+  - rewrite <- L. apply keep_idx_range.
+  - intros p Hp Hn m Hm.
+    assert (E : nth p (map negb miss) false = false).
+    { destruct (nth p (map negb miss) false) eqn:E; auto. exfalso. apply Hn. apply keep_idx_In. rewrite L. auto. }
+    unfold miss in E. rewrite (nth_map_in negb _ p false false) in E by (rewrite map_length, seq_length; lia).
+    rewrite (nth_map_in (all_nan O f) _ p 0 false) in E by (rewrite seq_length; lia).
+    rewrite seq_nth in E by lia. simpl in E. apply negb_false_iff in E. unfold all_nan in E.
+    rewrite forallb_forall in E. apply (E (arow f m)). unfold arow. apply nth_In. exact Hm.
+Qed.
+
+(* masks: removing the deselected points and NaN-filling the remaining masked values (what the code does)
+   = keeping every point and marking every masked or deselected value as NaN.  Needs only that 0/0 is a NaN. *)
+Definition nan_marked (sel : list bool) (fmask : list (list bool)) (f : list (list T)) : list (list T) :=
+  map (fun m => map (fun j => if orb (nth j (nth m fmask []) false) (negb (nth j sel false)) then nan O else aget2 z f m j)
+                    (seq 0 (shape1 f))) (seq 0 (shape0 f)).
+
+Lemma rows_shape1 (g : nat -> nat -> T) (f : list (list T)) :
+  shape1 (map (fun m => map (g m) (seq 0 (shape1 f))) (seq 0 (shape0 f))) = shape1 f.
+Proof.
+  unfold shape1 at 1. unfold shape0. destruct f as [|r f']; [reflexivity|].
+  simpl length. simpl seq. simpl map. simpl nth. now rewrite map_length, seq_length.
+Qed.
+Lemma rows_get (g : nat -> nat -> T) nf n m j : m < nf -> j < n ->
+  aget2 z (map (fun m => map (g m) (seq 0 n)) (seq 0 nf)) m j = g m j.
+Proof.
+  intros Hm Hj. unfold aget2, arow. rewrite (nth_map_in _ (seq 0 nf) m 0 []) by (now rewrite seq_length).
+  rewrite seq_nth by auto. simpl. now apply aget_map_seq.
+Qed.
+
+Theorem mask_is_nan_marking gmask fmask pos f edges et dt :
+  nisnan O (nan O) = true -> shape1 f = shape1 pos ->
+  let pf := pre_mask O gmask fmask pos f in
+  unstructured_spec O (snd pf) edges (fst pf) et dt
+  = unstructured_spec O (nan_marked (pre_select gmask fmask (shape1 f)) fmask f) edges pos et dt.
+Proof.
+  intros Hnan Hs. unfold pre_mask. cbv zeta. cbn [fst snd].
+  set (sel := pre_select gmask fmask (shape1 f)).
+  assert (L : length sel = shape1 pos) by (unfold sel; now rewrite pre_select_length).
+  assert (S1 : shape1 (nan_marked sel fmask f) = shape1 pos).
+  { unfold nan_marked. now rewrite rows_shape1. }
+  rewrite <- (missing_points_removed O (nan_marked sel fmask f) pos edges et dt (keep_idx sel)); auto.
+  - f_equal. unfold take_cols, fill_masked, nan_marked. rewrite !map_map. apply map_ext_in. intros m Hm.
+    apply map_ext_in. intros p Hp. apply keep_idx_In in Hp. destruct Hp as [Hp Hsel].
+    rewrite L, <- Hs in Hp. rewrite !aget_map_seq by auto. rewrite Hsel. simpl. now rewrite orb_false_r.
+  - apply keep_idx_sorted.
+  - rewrite <- L. apply keep_idx_range.
+  - intros p Hp Hn m Hm.
+    assert (E : nth p sel false = false).
+    { destruct (nth p sel false) eqn:E; auto. exfalso. apply Hn. apply keep_idx_In. rewrite L. auto. }
+    unfold nan_marked in *. unfold shape0 in Hm. rewrite map_length, seq_length in Hm.
+    rewrite rows_get by (auto; lia). rewrite E. simpl. rewrite orb_true_r. exact Hnan.
+Qed.
 
 (* Sturges' rule in integers: s = ceil(2 log2 n + 1)  <=>  2^(s-2) < n^2 <= 2^(s-1)  (n >= 2) *)
 Lemma sturges_spec n : 2 <= n ->
